@@ -23,6 +23,7 @@ pub struct Pattern {
 
 enum Part {
     M(BytesMut),
+    #[allow(dead_code)]
     B(Bytes),
 }
 
